@@ -44,10 +44,10 @@ ASSUMPTIONS = ["X25519, HMAC and HKDF in ipv8_rust_tunnels are trusted",
 REACH = ["hop_appended_honest", "keys_equal_checked", "retry_happened", "answer_ignored_by_originator", "dup_answer", "fault:flip_key",
          "fault:flip_auth", "fault:flip_ident", "fault:flip_cid", "fault:flip_cand", "fault:swap_ident", "fault:swap_cid", "fault:swap_cid_exit",
          "fault:replay_old", "fault:subst_key", "fault:subst_key_nocand", "crafted_answer_rejected", "subst_accepted_but_underivable", "hops:3",
-         "extend_waits_for_peer_lookup", "join_policy_suspended"]
+         "extend_waits_for_peer_lookup", "join_policy_suspended", "fault:swap_answer", "answer_relabelled_for_circuit_built_in_same_round"]
 
 KINDS = ["flip_key", "flip_auth", "flip_ident", "flip_cid", "flip_cand", "swap_ident", "swap_cid", "swap_cid_exit", "replay_old",
-         "subst_key", "subst_key_nocand", "dup_answer"]
+         "subst_key", "subst_key_nocand", "dup_answer", "swap_answer"]
 
 
 def cases(tier: str, base_seed: int):  # noqa: ANN201
@@ -68,6 +68,11 @@ def cases(tier: str, base_seed: int):  # noqa: ANN201
             n += 1
             yield {"seed": base_seed + n, "knobs": {"dup": dup, "lat_jit": 0.01}, "hops": hops, "nodes": 5, "circuits": 3, "nht": 10,
                    "who": None, "faults": [], "join_delay": delay}
+    for hops in (1, 2):
+        for ncirc in (3, 6):
+            n += 1
+            yield {"seed": base_seed + n, "knobs": {}, "hops": hops, "nodes": 4 if hops == 1 else 5, "circuits": ncirc, "nht": 3, "who": "wire",
+                   "rounds": True, "faults": [{"kind": "swap_answer", "nth": k, "bit": (3 * k + 1) % 256} for k in range(0, 5)]}
     for who in ("node", "wire"):
         for kind in KINDS:
             for hops in (1, 2, 3):
@@ -99,6 +104,9 @@ def cases(tier: str, base_seed: int):  # noqa: ANN201
             case["blind"] = rng.choice([0.05, 0.15, 0.5, 1.5, 4.0])
         if rng.random() < 0.3:
             case["join_delay"] = rng.choice([0.01, 0.05, 0.3])
+        if rng.random() < 0.25 and not case.get("blind"):
+            case["rounds"] = True
+            case["circuits"] = rng.choice([2, 3, 6])
         yield case
 
 
@@ -128,7 +136,7 @@ def execute(case: dict) -> dict:  # noqa: C901, PLR0915
     rng = world.stream("c08")
     hops = case["hops"]
     nn = max(case["nodes"], hops + 2)
-    tw = TunnelWorld(c, n=nn, exits=tuple(range(nn - 2, nn)), settings={"next_hop_timeout": case["nht"]})
+    tw = TunnelWorld(c, n=nn, exits=tuple(range(nn - 2, nn)), settings={"next_hop_timeout": case["nht"], **({"max_circuits": int(case["circuits"])} if case.get("rounds") else {})})
     faults = list(case.get("faults", []))
     who = case.get("who")
     crafted: dict = {}          # pkt id -> kind
@@ -261,6 +269,13 @@ def execute(case: dict) -> dict:  # noqa: C901, PLR0915
                           f"selected peer {holder.name if holder else None} holds no entry with these session keys")
             elif entry is not None and kbytes(entry.hop.keys) == kbytes(hop.keys):
                 verified_routes.append((onode, self, idx))     # a properly routed hop: it must stay that way
+            elif "swap_answer" in kinds:
+                # the answer was made for ANOTHER circuit of this originator at the same hop and merely re-labelled: the peer does
+                # hold these keys, but under the other circuit's id - this circuit's route leads to an entry with other keys
+                c.violate("manipulated_answer", "accepted_answer_made_for_another_circuit",
+                          f"hop {idx + 1} of circuit {self.circuit_id} accepted from an answer that {holder.name if holder else None} gave "
+                          f"to another create of the same originator (circuit id and identifier re-labelled on the wire); the entry this "
+                          f"circuit's route leads to {'does not exist: ' + str(why) if entry is None else 'holds other session keys'}")
             return
         # (1) honest exchange
         world.probe("hop_appended_honest")
@@ -351,6 +366,12 @@ def execute(case: dict) -> dict:  # noqa: C901, PLR0915
                         payload.circuit_id = others[bit % len(others)]
                     else:
                         payload.circuit_id ^= 0x10
+                elif kind == "swap_answer":
+                    others = sorted((kk, v[0]) for kk, v in old_answers.items() if kk != key and kk[0] == key[0])
+                    if not others:
+                        craft_now[0] = None
+                        return inner(target_addr, payload)
+                    (_n2, payload.circuit_id), payload.identifier = others[bit % len(others)]
                 elif kind == "replay_old":
                     if prev is None:
                         craft_now[0] = None
@@ -382,6 +403,7 @@ def execute(case: dict) -> dict:  # noqa: C901, PLR0915
     # ---------------------------------------------------------------- on-path attacker on plaintext created cells
     wire_n = {"n": 0}
     wire_dh: dict = {}
+    wire_create: dict = {}      # circuit id -> (identifier, sender, receiver) of the latest plaintext create seen on the wire
     wire_old: dict = {}
 
     def wire_filter(pkt):  # noqa: ANN001, ANN202, C901
@@ -396,6 +418,7 @@ def execute(case: dict) -> dict:  # noqa: C901, PLR0915
                 off += 2 + l1
                 (l2,) = struct.unpack_from(">H", msg, off)
                 wire_dh[cid] = msg[off + 2:off + 2 + l2]
+                wire_create[cid] = (struct.unpack_from(">H", msg, 1)[0], tuple(pkt.src), tuple(pkt.dst))
             except struct.error:
                 pass
             return None
@@ -466,6 +489,16 @@ def execute(case: dict) -> dict:  # noqa: C901, PLR0915
             if os.environ.get("C08_DEBUG"):
                 print("SWAP wire", pkt.src_node, "->", rcv.name if rcv else None, "cid", cid, "->", ncid, "cands", others,
                       "exit@rcv", sorted(rcv.ov.exit_sockets) if rcv else None, "t=%.2f" % world.loop.time())
+        elif kind == "swap_answer":
+            # the answer is re-labelled (circuit id AND identifier, both in the clear) as the answer to another create that the same
+            # originator has outstanding at the same hop - e.g. a circuit built in the same round
+            pend = sorted(k2 for k2, (_i2, s2, d2) in wire_create.items()
+                          if k2 != cid and k2 not in wire_old and s2 == tuple(pkt.dst) and d2 == tuple(pkt.src))
+            if not pend:
+                return None
+            ncid = pend[bit % len(pend)]
+            ident = wire_create[ncid][0]
+            world.probe("answer_relabelled_for_circuit_built_in_same_round")
         elif kind == "replay_old":
             if prev is None:
                 return None
@@ -537,7 +570,12 @@ def execute(case: dict) -> dict:  # noqa: C901, PLR0915
                     node.ov.network.remove_peer(xp)
                     node.ov.candidates.pop(xp, None)
             required = Peer(x.ov.my_peer.public_key.key_to_bin(), x.address)
-        for _ in range(case["circuits"]):
+        if case.get("rounds"):
+            # the application asks for circuits the way Tribler does: build_tunnels() builds max_circuits of them in one round (and
+            # the periodic do_circuits task replaces those that fail)
+            o.call(o.ov.build_tunnels, hops)
+            circs.extend(o.ov.circuits.values())
+        for _ in range(0 if case.get("rounds") else case["circuits"]):
             circs.append(o.call(o.ov.create_circuit, hops, required_exit=required) if required is not None
                          else o.call(o.ov.create_circuit, hops))
             await asyncio.sleep(case.get("stagger") or rng.choice([0.0, 0.05, 1.0]))
